@@ -110,7 +110,9 @@ def diag_corr(i, c, m):
 def run(ctx):
     t0 = time.time()
     bindir = vlib.build_harness(False, bins=BINS)
-    fails = vlib.proof_step(ctx, "TG.Props.C13", THEOREMS, ["props/C13.vo"], TRUSTED, translators=sl.BRIDGE_TRANSLATORS)
+    fails = vlib.proof_step(ctx, "TG.Props.C13", THEOREMS, ["props/C13.vo"], TRUSTED,
+                            translators=sl.BRIDGE_TRANSLATORS + sl.INDEXER_TRANSLATORS)
+    sl.source_tie(ctx, fails)
     try:
         exe = vlib.build_model("scope")
     except vlib.BuildError as ex:
